@@ -1,8 +1,344 @@
-(* C19 — proofs (first part). *)
-From Coq Require Import NArith List Ascii String Bool Lia.
-From AV Require Import lib.Str lib.Sha1 lib.TokSplit model.C19_model.
+(* C19 — proofs about SaltToken, the salted token provider, keepstore's remoteClient and the legacy
+   saltAuthToken. *)
+From Coq Require Import NArith List Ascii String Bool Lia Arith.
+From AV Require Import lib.Str lib.Sha1 lib.TokSplit lib.HexNum lib.Sha1Facts model.C19_model.
 Import ListNotations.
 Local Open Scope string_scope.
 
-Lemma salt_deterministic token remote : forall a b, salt_token token remote = a -> salt_token token remote = b -> a = b.
+(* ---------- reading a token ---------- *)
+(* token = v2/uuid/secret or v2/uuid/secret/more...: its first three '/'-separated fields *)
+Definition v2_fields (token uuid secret : string) : Prop :=
+  exists rest, split_on "/" token = "v2" :: uuid :: secret :: rest.
+Definition not_v2 (token : string) : Prop := forall uuid secret, ~ v2_fields token uuid secret.
+
+Lemma v2_fields_fun token u s u' s' : v2_fields token u s -> v2_fields token u' s' -> u = u' /\ s = s'.
+Proof. intros [r H] [r' H']. rewrite H in H'. injection H' as -> -> _. auto. Qed.
+
+Lemma v2_fields_nosep token u s : v2_fields token u s -> has_char "/" u = false /\ has_char "/" s = false.
+Proof.
+  intros [r H]. pose proof (split_fields_nosep "/" token) as F. rewrite H in F.
+  inversion F as [|? ? _ F1]; subst. inversion F1 as [|? ? Hu F2]; subst. inversion F2 as [|? ? Hs _]; subst. auto.
+Qed.
+
+Lemma salt_not_v2 token remote :
+  not_v2 token -> salt_token token remote = if is_obsolete token then ErrObsolete else ErrFormat.
+Proof.
+  intro Hn. unfold salt_token, salt_token_k. destruct (split_on "/" token) as [|v [|u [|s r]]] eqn:E; try reflexivity.
+  destruct (String.eqb_spec v "v2") as [->|]; [|reflexivity]. exfalso. apply (Hn u s). exists r. exact E.
+Qed.
+
+(* ---------- SaltToken ---------- *)
+Definition digest (secret remote : string) : string := hmac_sha1_hex secret remote.
+
+Theorem salt_shape token remote uuid secret :
+  v2_fields token uuid secret -> is_salted_secret secret = false ->
+  salt_token token remote = Salted ("v2/" ++ uuid ++ "/" ++ digest secret remote) /\
+  String.length (digest secret remote) = 40 /\ all_chars is_lhex (digest secret remote) = true.
+Proof.
+  intros [r H] Hs. split; [|split; [apply hmac_hex_length|apply hmac_hex_lhex]].
+  unfold salt_token, salt_token_k. rewrite H. cbn [String.eqb Ascii.eqb Bool.eqb andb negb]. rewrite Hs. reflexivity.
+Qed.
+
+Theorem never_double_salted token remote uuid secret :
+  v2_fields token uuid secret -> is_salted_secret secret = true ->
+  salt_token token remote = if has_prefix remote uuid then Salted token else ErrSalted.
+Proof.
+  intros [r H] Hs. unfold salt_token, salt_token_k. rewrite H. cbn [String.eqb Ascii.eqb Bool.eqb andb negb]. rewrite Hs. reflexivity.
+Qed.
+
+Lemma digest_is_salted_secret secret remote : is_salted_secret (digest secret remote) = true.
+Proof. unfold is_salted_secret, digest. rewrite hmac_hex_length, hmac_hex_lhex. reflexivity. Qed.
+
+Lemma lhex_no_slash s : all_chars is_lhex s = true -> has_char "/" s = false.
+Proof. apply all_chars_no_char. reflexivity. Qed.
+
+Lemma split_v2 uuid x : has_char "/" uuid = false -> has_char "/" x = false ->
+  split_on "/" ("v2/" ++ uuid ++ "/" ++ x) = ["v2"; uuid; x].
+Proof.
+  intros Hu Hx. change ("v2/" ++ uuid ++ "/" ++ x) with ("v2" ++ String "/" (uuid ++ String "/" x)).
+  rewrite split_on_app by reflexivity. rewrite split_on_app by exact Hu. rewrite split_on_nosep by exact Hx. reflexivity.
+Qed.
+
+(* the result of salting is never salted again: presented for another remote it is refused, for a
+   remote that owns the uuid it is returned as it is *)
+Theorem salted_is_fixed_point token remote uuid secret remote' out :
+  v2_fields token uuid secret -> is_salted_secret secret = false ->
+  salt_token token remote = Salted out ->
+  salt_token out remote' = if has_prefix remote' uuid then Salted out else ErrSalted.
+Proof.
+  intros Hv Hs Ho. destruct (salt_shape token remote uuid secret Hv Hs) as [E _]. rewrite E in Ho. injection Ho as <-.
+  destruct (v2_fields_nosep _ _ _ Hv) as [Hu _].
+  apply (never_double_salted _ remote' uuid (digest secret remote)); [|apply digest_is_salted_secret].
+  exists []. apply split_v2; [exact Hu|]. apply lhex_no_slash, hmac_hex_lhex.
+Qed.
+
+Theorem salt_deterministic token remote : forall a b, salt_token token remote = a -> salt_token token remote = b -> a = b.
 Proof. intros a b <- <-. reflexivity. Qed.
+
+(* SaltToken never returns a token for something that is not v2/uuid/secret *)
+Theorem salt_not_v2_is_error token remote :
+  not_v2 token ->
+  (is_obsolete token = true /\ salt_token token remote = ErrObsolete) \/
+  (is_obsolete token = false /\ salt_token token remote = ErrFormat).
+Proof. intro Hn. rewrite (salt_not_v2 _ _ Hn). destruct (is_obsolete token); auto. Qed.
+
+(* a v2 token is never "obsolete": it contains '/' *)
+Lemma classify_total token :
+  not_v2 token \/ exists uuid secret, v2_fields token uuid secret.
+Proof.
+  destruct (split_on "/" token) as [|v [|u [|s r]]] eqn:E.
+  - left. intros u s [r H]. congruence.
+  - left. intros u s [r H]. congruence.
+  - left. intros u' s [r H]. congruence.
+  - destruct (String.eqb_spec v "v2") as [->|Hne].
+    + right. exists u, s, r. exact E.
+    + left. intros u' s' [r' H]. rewrite E in H. congruence.
+Qed.
+
+(* ---------- substring facts for non-disclosure ---------- *)
+Lemma has_prefix_length p s : has_prefix p s = true -> String.length p <= String.length s.
+Proof.
+  revert s. induction p as [|a p IH]; intros s H; [cbn; lia|]. destruct s as [|b s]; [discriminate|].
+  cbn [has_prefix] in H. apply andb_true_iff in H. destruct H as [_ H]. cbn [String.length]. specialize (IH s H). lia.
+Qed.
+Lemma contains_length sub s : contains sub s = true -> String.length sub <= String.length s.
+Proof.
+  induction s as [|c r IH]; cbn [contains]; intro H.
+  - rewrite orb_false_r in H. apply has_prefix_length in H. exact H.
+  - apply orb_true_iff in H. destruct H as [H|H]; [apply has_prefix_length in H; exact H|].
+    specialize (IH H). cbn [String.length]. lia.
+Qed.
+
+(* a separator-free string that is a prefix of a ++ sep ++ b is a prefix of a *)
+Lemma has_prefix_sep s sep a b : has_char sep s = false -> has_prefix s (a ++ String sep b) = true -> has_prefix s a = true.
+Proof.
+  revert s. induction a as [|x a IH]; intros s Hs H.
+  - destruct s as [|c s]; [reflexivity|]. cbn [append has_prefix has_char] in *.
+    apply orb_false_iff in Hs. destruct Hs as [Hc _]. apply andb_true_iff in H. destruct H as [H _].
+    apply Ascii.eqb_eq in H. subst c. rewrite Ascii.eqb_refl in Hc. discriminate.
+  - destruct s as [|c s]; [reflexivity|]. cbn [append has_prefix has_char] in *.
+    apply orb_false_iff in Hs. destruct Hs as [_ Hs]. apply andb_true_iff in H. destruct H as [H1 H2].
+    rewrite H1. cbn [andb]. apply IH; assumption.
+Qed.
+Lemma contains_sep s sep a b : has_char sep s = false ->
+  contains s (a ++ String sep b) = true -> contains s a = true \/ contains s b = true.
+Proof.
+  intro Hs. induction a as [|x a IH]; intro H.
+  - cbn [append contains] in H. apply orb_true_iff in H. destruct H as [H|H]; [|right; exact H].
+    left. change (has_prefix s ("" ++ String sep b) = true) in H. apply has_prefix_sep in H; [|exact Hs].
+    cbn [contains]. rewrite H. reflexivity.
+  - cbn [append contains] in H. apply orb_true_iff in H. destruct H as [H|H].
+    + left. change (has_prefix s ((String x a) ++ String sep b) = true) in H. apply has_prefix_sep in H; [|exact Hs].
+      cbn [contains]. rewrite H. reflexivity.
+    + destruct (IH H) as [H'|H']; [left; cbn [contains]; rewrite H'; apply orb_true_r|right; exact H'].
+Qed.
+
+(* the secret occurs in v2/uuid/H only if it occurs in "v2", in the uuid or in the digest; a secret
+   longer than 40 characters occurs in it only if it occurs in the uuid *)
+Theorem forwarded_has_no_secret uuid secret remote :
+  has_char "/" secret = false ->
+  let out := "v2/" ++ uuid ++ "/" ++ digest secret remote in
+  (contains secret out = true ->
+   contains secret "v2" = true \/ contains secret uuid = true \/ contains secret (digest secret remote) = true) /\
+  (40 < String.length secret -> contains secret out = true -> contains secret uuid = true).
+Proof.
+  intros Hs out.
+  assert (H1 : contains secret out = true ->
+               contains secret "v2" = true \/ contains secret uuid = true \/ contains secret (digest secret remote) = true).
+  { unfold out. change ("v2/" ++ uuid ++ "/" ++ digest secret remote) with ("v2" ++ String "/" (uuid ++ String "/" (digest secret remote))).
+    intro H. apply contains_sep in H; [|exact Hs]. destruct H as [H|H]; [auto|].
+    apply contains_sep in H; [|exact Hs]. tauto. }
+  split; [exact H1|]. intros Hl H. destruct (H1 H) as [H2|[H2|H2]]; [|exact H2|].
+  - apply contains_length in H2. cbn in H2. lia.
+  - apply contains_length in H2. unfold digest in H2. rewrite hmac_hex_length in H2. lia.
+Qed.
+
+(* ---------- the salted token provider ---------- *)
+Theorem provide_v2_unsalted local remote token uuid secret :
+  v2_fields token uuid secret -> is_salted_secret secret = false ->
+  provide_one local remote token = Some ("v2/" ++ uuid ++ "/" ++ digest secret remote).
+Proof.
+  intros Hv Hs. unfold provide_one, provide_one_k. fold (salt_token token remote).
+  destruct (salt_shape token remote uuid secret Hv Hs) as [-> _]. reflexivity.
+Qed.
+
+Theorem provide_v2_salted local remote token uuid secret :
+  v2_fields token uuid secret -> is_salted_secret secret = true -> provide_one local remote token = Some token.
+Proof.
+  intros Hv Hs. unfold provide_one, provide_one_k. fold (salt_token token remote).
+  rewrite (never_double_salted token remote uuid secret Hv Hs). destruct (has_prefix remote uuid); reflexivity.
+Qed.
+
+Theorem provide_opaque local remote token :
+  not_v2 token -> is_obsolete token = false -> provide_one local remote token = Some token.
+Proof.
+  intros Hn Ho. unfold provide_one, provide_one_k. fold (salt_token token remote). rewrite (salt_not_v2 _ _ Hn), Ho. reflexivity.
+Qed.
+
+Theorem provide_legacy local remote token :
+  not_v2 token -> is_obsolete token = true ->
+  provide_one local remote token =
+  match local token with
+  | AcaUnauthorized => Some token
+  | AcaError => None
+  | AcaOk uuid api =>
+    if has_prefix remote uuid then Some token
+    else match salt_token ("v2/" ++ uuid ++ "/" ++ api) remote with Salted t => Some t | _ => None end
+  end.
+Proof.
+  intros Hn Ho. unfold provide_one, provide_one_k. fold (salt_token token remote). rewrite (salt_not_v2 _ _ Hn), Ho. reflexivity.
+Qed.
+
+(* a legacy token resolved locally to (uuid, api_token) of another cluster goes out as the salted form
+   of v2/uuid/api_token *)
+Corollary provide_legacy_resolved local remote token uuid api :
+  not_v2 token -> is_obsolete token = true -> local token = AcaOk uuid api ->
+  has_prefix remote uuid = false -> has_char "/" uuid = false -> has_char "/" api = false -> is_salted_secret api = false ->
+  provide_one local remote token = Some ("v2/" ++ uuid ++ "/" ++ digest api remote).
+Proof.
+  intros Hn Ho Hl Hp Hu Ha Hs. rewrite (provide_legacy _ _ _ Hn Ho), Hl, Hp.
+  destruct (salt_shape ("v2/" ++ uuid ++ "/" ++ api) remote uuid api) as [-> _]; [|exact Hs|reflexivity].
+  exists []. apply split_v2; assumption.
+Qed.
+
+(* the provider is the token-wise map, failing as a whole when one token fails *)
+Theorem provider_pointwise local remote tokens outs :
+  provider local remote (Some tokens) = Some outs <->
+  Forall2 (fun t o => provide_one local remote t = Some o) tokens outs.
+Proof.
+  unfold provider, provider_k. revert outs. induction tokens as [|t r IH]; intros outs; cbn [provide_all_k].
+  - split; [intro H; injection H as <-; constructor|intro H; inversion H; reflexivity].
+  - fold (provide_one local remote t). destruct (provide_one local remote t) as [o|] eqn:E.
+    + destruct (provide_all_k hmac_sha1_hex local remote r) as [os|] eqn:E2.
+      * split.
+        -- intro H. injection H as <-. constructor; [exact E|]. apply IH. reflexivity.
+        -- intro H. inversion H as [|? ? ? ? H1 H2]; subst. apply IH in H2. congruence.
+      * split; [discriminate|]. intro H. inversion H as [|? ? ? ? H1 H2]; subst. apply IH in H2. discriminate.
+    + split; [discriminate|]. intro H. inversion H as [|? ? ? ? H1 H2]; subst. congruence.
+Qed.
+
+Theorem provider_no_credentials local remote : provider local remote None = None.
+Proof. reflexivity. Qed.
+
+(* ---------- keepstore ---------- *)
+Theorem remote_client_salted token remote out :
+  remote_client token remote = Some out <-> salt_token token remote = Salted out.
+Proof.
+  unfold remote_client, remote_client_k. fold (salt_token token remote).
+  destruct (salt_token token remote); split; intro H; try discriminate; congruence.
+Qed.
+
+Corollary remote_client_unsalted token remote uuid secret :
+  v2_fields token uuid secret -> is_salted_secret secret = false ->
+  remote_client token remote = Some ("v2/" ++ uuid ++ "/" ++ digest secret remote).
+Proof. intros Hv Hs. apply remote_client_salted. apply (salt_shape token remote uuid secret Hv Hs). Qed.
+
+Corollary remote_client_not_v2 token remote : not_v2 token -> remote_client token remote = None.
+Proof.
+  intro Hn. unfold remote_client, remote_client_k. fold (salt_token token remote). rewrite (salt_not_v2 _ _ Hn).
+  destruct (is_obsolete token); reflexivity.
+Qed.
+
+(* ---------- legacy saltAuthToken ---------- *)
+(* F6b: a token carried only in the urlencoded form body is forwarded as it is ... *)
+Definition f6b_form_request : lreq :=
+  {| l_auth := ANone; l_query := []; l_ctype := "application/x-www-form-urlencoded";
+     l_form := [("api_token", "v2/aaaaa-gj3su-000000000000000/thisisthesecretpartofthetokenwhichislongerthan40chars"); ("foo", "bar")];
+     l_cookie := None |}.
+Theorem legacy_form_token_forwarded_unsalted :
+  exists r', legacy (fun _ => DbError) f6b_form_request "bbbbb" = LFwd r' /\
+             In "v2/aaaaa-gj3su-000000000000000/thisisthesecretpartofthetokenwhichislongerthan40chars" (carried r').
+Proof. eexists. split; [vm_compute; reflexivity|]. vm_compute. auto. Qed.
+
+(* ... and so is the arvados_api_token cookie, even when the header token is salted properly *)
+Definition f6b_cookie_request : lreq :=
+  {| l_auth := ABearer "v2/aaaaa-gj3su-000000000000000/thisisthesecretpartofthetokenwhichislongerthan40chars";
+     l_query := []; l_ctype := ""; l_form := [];
+     l_cookie := Some "v2/aaaaa-gj3su-000000000000000/thisisthesecretpartofthetokenwhichislongerthan40chars" |}.
+Theorem legacy_cookie_token_forwarded_unsalted :
+  exists r', legacy (fun _ => DbError) f6b_cookie_request "bbbbb" = LFwd r' /\
+             In "v2/aaaaa-gj3su-000000000000000/thisisthesecretpartofthetokenwhichislongerthan40chars" (carried r').
+Proof. eexists. split; [vm_compute; reflexivity|]. vm_compute. auto. Qed.
+
+(* the general statement "a forwarded request carries only the salted form of its first token" fails *)
+Definition legacy_forwards_only_salted : Prop :=
+  forall db r remote r' t0 rest uuid secret,
+    legacy db r remote = LFwd r' -> load_tokens r = t0 :: rest ->
+    v2_fields t0 uuid secret -> is_salted_secret secret = false ->
+    carried r' = ["v2/" ++ uuid ++ "/" ++ digest secret remote].
+Theorem legacy_forwards_only_salted_refuted : ~ legacy_forwards_only_salted.
+Proof.
+  intro H. specialize (H (fun _ => DbError) f6b_cookie_request "bbbbb").
+  remember (legacy (fun _ => DbError) f6b_cookie_request "bbbbb") as res eqn:E. vm_compute in E.
+  destruct res as [|r']; [discriminate|]. injection E as ->.
+  specialize (H _ "v2/aaaaa-gj3su-000000000000000/thisisthesecretpartofthetokenwhichislongerthan40chars"
+                ["v2/aaaaa-gj3su-000000000000000/thisisthesecretpartofthetokenwhichislongerthan40chars"]
+                "aaaaa-gj3su-000000000000000" "thisisthesecretpartofthetokenwhichislongerthan40chars" eq_refl eq_refl).
+  assert (Hv : v2_fields "v2/aaaaa-gj3su-000000000000000/thisisthesecretpartofthetokenwhichislongerthan40chars"
+                         "aaaaa-gj3su-000000000000000" "thisisthesecretpartofthetokenwhichislongerthan40chars")
+    by (exists []; reflexivity).
+  specialize (H Hv eq_refl). vm_compute in H. discriminate.
+Qed.
+
+Lemma values_without k ps : values k (without k ps) = [].
+Proof.
+  unfold values, without. induction ps as [|[a b] r IH]; [reflexivity|]. cbn [filter fst negb].
+  destruct (String.eqb a k) eqn:E; cbn [negb]; [exact IH|]. cbn [filter fst]. rewrite E. exact IH.
+Qed.
+
+(* When the request has no api_token in its form body and no token cookie, the forwarded request
+   carries exactly one token: the first one found (header, then basic-auth password, then query), in
+   salted form.  Every other token the request carried is dropped. *)
+Theorem legacy_forwards_only_salted_partial db r remote r' t0 rest uuid secret :
+  values "api_token" (l_form r) = [] -> l_cookie r = None ->
+  legacy db r remote = LFwd r' -> load_tokens r = t0 :: rest ->
+  v2_fields t0 uuid secret -> is_salted_secret secret = false ->
+  carried r' = ["v2/" ++ uuid ++ "/" ++ digest secret remote].
+Proof.
+  intros Hf Hc Hl Ht Hv Hs. unfold legacy, legacy_k in Hl. rewrite Ht in Hl. fold (salt_token t0 remote) in Hl.
+  destruct (salt_shape t0 remote uuid secret Hv Hs) as [E _]. rewrite E in Hl. injection Hl as <-.
+  unfold carried. cbn [l_auth l_query l_form l_cookie]. rewrite values_without, Hf, Hc. reflexivity.
+Qed.
+
+(* under the same hypothesis nothing but the outcome for the first token is ever carried *)
+Theorem legacy_carries_one_token db r remote r' t0 rest :
+  values "api_token" (l_form r) = [] -> l_cookie r = None ->
+  legacy db r remote = LFwd r' -> load_tokens r = t0 :: rest ->
+  exists out, carried r' = [out] /\
+    (salt_token t0 remote = Salted out \/
+     ((salt_token t0 remote = ErrObsolete \/ salt_token t0 remote = ErrFormat) /\
+      (out = t0 \/ exists user auth_uuid secret, db t0 = DbFound user auth_uuid secret /\
+                                                salt_token ("v2/" ++ auth_uuid ++ "/" ++ secret) remote = Salted out))).
+Proof.
+  intros Hf Hc Hl Ht. unfold legacy, legacy_k in Hl. rewrite Ht in Hl. fold (salt_token t0 remote) in Hl.
+  assert (Hcar : forall t, carried {| l_auth := ABearer t; l_query := without "api_token" (l_query r); l_ctype := l_ctype r;
+                                      l_form := l_form r; l_cookie := l_cookie r |} = [t]).
+  { intro t. unfold carried. cbn [l_auth l_query l_form l_cookie]. rewrite values_without, Hf, Hc. reflexivity. }
+  destruct (salt_token t0 remote) as [t| | |] eqn:E.
+  - injection Hl as <-. exists t. split; [apply Hcar|left; reflexivity].
+  - destruct (db t0) as [| |user au sec] eqn:Ed; [discriminate| |].
+    + injection Hl as <-. exists t0. split; [apply Hcar|]. right. split; [auto|auto].
+    + destruct (has_prefix remote user).
+      * injection Hl as <-. exists t0. split; [apply Hcar|]. right. split; [auto|auto].
+      * fold (salt_token ("v2/" ++ au ++ "/" ++ sec) remote) in Hl.
+        destruct (salt_token ("v2/" ++ au ++ "/" ++ sec) remote) as [t| | |] eqn:E2; try discriminate.
+        injection Hl as <-. exists t. split; [apply Hcar|]. right. split; [auto|]. right. exists user, au, sec. auto.
+  - destruct (db t0) as [| |user au sec] eqn:Ed; [discriminate| |].
+    + injection Hl as <-. exists t0. split; [apply Hcar|]. right. split; [auto|auto].
+    + destruct (has_prefix remote user).
+      * injection Hl as <-. exists t0. split; [apply Hcar|]. right. split; [auto|auto].
+      * fold (salt_token ("v2/" ++ au ++ "/" ++ sec) remote) in Hl.
+        destruct (salt_token ("v2/" ++ au ++ "/" ++ sec) remote) as [t| | |] eqn:E2; try discriminate.
+        injection Hl as <-. exists t. split; [apply Hcar|]. right. split; [auto|]. right. exists user, au, sec. auto.
+  - discriminate.
+Qed.
+
+(* the hypotheses of the partial theorems are satisfiable *)
+Example legacy_partial_example :
+  let r := {| l_auth := ABearer "v2/aaaaa-gj3su-000000000000000/thisisthesecretpartofthetokenwhichislongerthan40chars";
+              l_query := [("api_token", "v2/aaaaa-gj3su-000000000000000/thisisthesecretpartofthetokenwhichislongerthan40chars"); ("limit", "1")];
+              l_ctype := "application/x-www-form-urlencoded"; l_form := [("foo", "bar")]; l_cookie := None |} in
+  values "api_token" (l_form r) = [] /\ l_cookie r = None /\
+  exists r', legacy (fun _ => DbError) r "bbbbb" = LFwd r' /\
+             carried r' = ["v2/aaaaa-gj3su-000000000000000/002f0c7aece57b9244af4922fc8e857b13422a62"].
+Proof. cbv zeta. split; [reflexivity|]. split; [reflexivity|]. eexists. split; vm_compute; reflexivity. Qed.
